@@ -49,7 +49,12 @@ func diagString(s *soup3, m *model3d.Mesh, withOr bool) string {
 			}
 			es = strings.Join(parts, ",")
 		}
-		res = fmt.Sprintf("nr=%s sv=%s ie=%s", b01(nr), intsStr(sv), es)
+		if withOr {
+			res = fmt.Sprintf("nr=%s sv=%s ie=%s", b01(nr), intsStr(sv), es)
+		} else {
+			// degenerate faces: SingularVertices depends on the map iteration order there
+			res = fmt.Sprintf("nr=%s ie=%s", b01(nr), es)
+		}
 	})
 	if st != "ok" {
 		return st
